@@ -27,6 +27,8 @@ P = {
  "C16": ("LibTrace", "TLA+ spec (Lib: URL round-trip law, Dec: Atoi denotation) + TLC trace validation of generate->String->Parse->ParseOTPAuthURL round trips and parse-only texts", "5/C16"),
  "C17": ("LibTrace", "TLA+ spec (Dec: bignum decimal->hex, ParseUint acceptance; Lib helper operators) + TLC trace validation of helper calls and numeric-question end-to-end generation", "5/C17"),
  "C13": ("LibTrace", "TLA+ spec (Lib: VerdictWellFormed, Discloses) + TLC trace validation of every failing call", "5/C13"),
+ "C18": ("RestTrace", "TLA+ spec (spec/RestTrace.tla: per-endpoint request->library mapping composed with Lib; spec/Rest.tla small-scope model) + TLC validation of every exchange recorded from the real server binary on loopback (sequential, kept-alive and fresh connections, 8 concurrent clients)", "5/C18"),
+ "C19": ("RestTrace", "TLA+ spec (spec/Rest.tla: bounded work, status classes, Received ~> Responded under fairness, model-checked with its unguarded negative twin; spec/RestTrace.tla) + TLC validation of fault sequences interleaved with probes against the real server binary, 3 s deadline per exchange, liveness probe at the end", "5/C19"),
 }
 
 def main():
@@ -65,6 +67,8 @@ def main():
         "engines": [
             {"name": "Pools", "path": "spec/Pools.tla", "serves_properties": ["C11"],
              "kind_free_text": "TLA+ model of Get/fill/HMAC/format/deferred Put with adversary and GC; PoolsGen generates behaviours (tlc -simulate), harness/gate.go replays them on the real code under GOMAXPROCS(1) through the verif hook's gates, PoolsTrace validates the recorded events (unlogged Get/Put inferred by TLC)"},
+            {"name": "RestTrace", "path": "spec/RestTrace.tla", "serves_properties": ["C18", "C19"],
+             "kind_free_text": "explicit TLA+ description of the ten endpoints (field defaults, refusal conditions, response shape) over the Lib operators; black-box driver harness/rest.go + rest_scen.go against the server binary built from the current tree"},
             {"name": "Taint", "path": "spec/Taint.tla", "serves_properties": ["C09"],
              "kind_free_text": "TLA+ taint-propagation system over a program graph; constants come from harness/ssagraph (x/tools go/ssa + CHA call graph) run on the current tree"},
             {"name": "LibTrace", "path": "spec/LibTrace.tla", "serves_properties": [p for p in ids if p in P and P[p][0] == "LibTrace"],
@@ -84,6 +88,8 @@ LEVEL_DEFAULT = ("Explicit TLA+ specification checked by TLC: small-scope config
                  "at every boundary the case analysis has, not proved for all 2^64 counters.")
 LEVEL_TEXT = {}
 NOTES = {
+ "C18": "Black-box: fasthttp, encoding/json and net/http are environment. The server's clock is bounded by the client's clock before and after the exchange (same host). HMAC oracle as elsewhere. Request strings are valid UTF-8; texts with Unicode white space at the edges are left undecided.",
+ "C19": "Liveness is proved on the small-scope model (fairness, 3 requests, scaled skew limit) and observed on the real server with a 3 s deadline per exchange (normal latency is below 1 ms). Bodies beyond the 1 MiB limit are outside the property's domain (the server may drop the connection); syntactic malformedness classes (broken JSON, wrong JSON type) are the request generator's claim, the body text is kept in the replay file.",
  "C09": "Model checking of an extracted abstraction: the verdict is TLC's (NoLeak over the taint fixpoint), the binding is the extractor, re-run on the current tree for three build configurations. Trusted: the SSA builder and CHA call graph of x/tools v0.29, the extractor's transfer rules for calls outside the analysed packages (result tainted iff an argument is; copy/json.Unmarshal/hex.Decode/PutUint64/io.ReadFull/Write taint an argument), the list of variable-time primitives; implicit (control) flows and hardware timing are out of scope. Non-vacuity is checked: every constant-time comparison site must be reached by HMAC-derived data on one operand and submitted text on the other.",
  "C11": "Interleavings are explored exhaustively on the model and at the granularity of the hook's gates (constructor, Write, Sum, return) on the real code, under GOMAXPROCS(1); finer-grained races are left to the race-detector tier, which samples. Trusted: TLC, the Go scheduler obeying channel handshakes, sync.Pool semantics as modelled (Get returns any pooled item or a new one; items may be dropped at any time), buffer identity by address.",
 }
